@@ -10,7 +10,8 @@ trap 'rm -rf "$D"' EXIT
 rsync -a --exclude .git /repo/ "$D/repo/"
 ( cd "$D/repo" && patch -p1 -s < "$PATCH" ) || { echo "PATCH-FAILED $PATCH"; exit 3; }
 if [ -z "$SKIP_SUITE" ]; then
-  ( cd "$D/repo" && GOFLAGS=-mod=mod go build ./... && go test -vet=off -count=1 ./internal/pfcp/... ./internal/report/... ./internal/gtpv1/... ./internal/forwarder/perio/... >"$D/suite.log" 2>&1 )
+  ( cd "$D/repo" && go build ./... ) >"$D/build.log" 2>&1 || { echo "MUTANT-DOES-NOT-BUILD $PATCH"; tail -5 "$D/build.log"; exit 3; }
+  ( cd "$D/repo" && go test -vet=off -count=1 ./internal/pfcp/... ./internal/report/... ./internal/gtpv1/... ./internal/forwarder/perio/... >"$D/suite.log" 2>&1 )
   ( cd "$D/repo" && go test -vet=off -count=1 -run 'TestParseFlowDesc|Test_convertSlice' ./internal/forwarder/ >>"$D/suite.log" 2>&1 ) || { echo "SUITE-FAILS-WITH-MUTANT $PATCH"; tail -20 "$D/suite.log"; exit 3; }
   grep -q "^FAIL" "$D/suite.log" && { echo "SUITE-FAILS-WITH-MUTANT $PATCH"; grep -B5 "^FAIL" "$D/suite.log" | tail -30; exit 3; }
 fi
